@@ -6,7 +6,9 @@ LossPDEStatio / LossPDENonStatio on polynomial PINNs whose network input reads t
 at t = 0 with batch times != 0 (PDE); stationary and non-stationary normalisation with non-constant u, auxiliary
 outputs excluded by slice_solution; observation tables with distinct integer rows, obs_slice / slice_solution
 combinations, observed theta given as (n,1) or (n,), hand-built batches and batches drawn by the real
-DataGeneratorObservations.  The loss-case machinery is shared with C03 (harness/c03.py).
+DataGeneratorObservations; real SPINNs (polynomial per-coordinate features) for the normalisation term
+(stationary / non-stationary, 1..3 outputs, sample count 1x, 2x, 3x the temporal batch size) and the PDE
+initial-condition term.  The loss-case machinery is shared with C03 (harness/c03.py).
 """
 from __future__ import annotations
 
@@ -33,7 +35,12 @@ LEVEL_TEXT = ("Lean 4 theorems, for all networks, initial states / functions, sa
 LEVEL_NOTE = ("Trusted: Lean kernel + {propext, Classical.choice, Quot.sound}; the network is an oracle table (whole "
               "outputs; the model slices, aligns rows and aggregates); the tie of the hand-written model to the code is "
               "differential; a parameter batch is covered for the observation term (observed rows win over generated rows of "
-              "the same key) and the initial-condition term; SPINN branches are not covered here.")
+              "the same key) and the initial-condition term; separable networks (SPINN) are covered for the normalisation "
+              "and PDE initial-condition terms: they are evaluated on the tensor grid of the coordinate columns (samples, "
+              "resp. spatial points of the batch; batch times repeated n_samples/n_times times), which the model states; "
+              "a vector-valued u is averaged over all its output components as well as over the samples (what the code "
+              "computes; for PINNs the generated normalisation cases select one component with slice_solution); the "
+              "observation term is not implemented for SPINNs in jinns.")
 THEOREMS = [
     "Jinns.LossTerms.icODE_single",
     "Jinns.LossTerms.icPDE_closed_form",
